@@ -944,3 +944,128 @@ def jdec_keys(tok):
     from realops import jdec
     d = jdec(tok)
     return list(d) if isinstance(d, dict) else []
+
+
+# --------------------------------------------------------------------------- C17
+def data_audit(S):
+    """Independent re-statement of the C17 obligations on the live data; returns offending items."""
+    import re as _re
+    import pycountry
+    iso = {c.alpha_2 for c in pycountry.countries}
+    bad = []
+    per_pos = {}
+    for cc, spec in S.table.items():
+        items = SPEC_ITEM_RE.findall(spec["bban_spec"])
+        if "".join(n + "!" + k for n, k in items) != spec["bban_spec"]:
+            bad.append(("country", cc, "structure string does not parse: " + spec["bban_spec"]))
+            continue
+        cls = [k for n, k in items for _ in range(int(n))]
+        per_pos[cc] = cls
+        if len(cls) != spec["bban_length"] or spec["iban_length"] != spec["bban_length"] + 4 or spec["iban_length"] > 34:
+            bad.append(("country", cc, "lengths do not add up"))
+        rngs = sorted((v[0], v[1], k) for k, v in spec.get("positions", {}).items())
+        for s_, e_, k in rngs:
+            if not (0 <= s_ < e_ <= spec["bban_length"]):
+                bad.append(("country", cc, f"position {k} out of bounds: {s_}:{e_}"))
+        for (s1, e1, k1), (s2, e2, k2) in zip(rngs, rngs[1:]):
+            if e1 > s2:
+                bad.append(("country", cc, f"positions {k1} {s1}:{e1} and {k2} {s2}:{e2} overlap"))
+        for k in spec.get("bic_lookup_components", []):
+            if k not in spec.get("positions", {}):
+                bad.append(("country", cc, f"lookup component {k} is not a published field"))
+    ok = {"n": DIGITS, "a": UPPER, "c": DIGITS + UPPER, "e": " "}
+    for e in S.banks:
+        cc = e["country_code"]
+        if cc not in S.table:
+            bad.append(("bank", e, "country not in the table"))
+            continue
+        b = e["bic"]
+        if b:
+            if not (len(b) in (8, 11) and all(ch in DIGITS + UPPER for ch in b) and
+                    all(ch in UPPER for ch in b[4:6]) and b[4:6] in iso):
+                bad.append(("bank", e, "BIC is not a valid ISO 9362 BIC"))
+        code = e["bank_code"]
+        if code and cc in per_pos:
+            spec = S.table[cc]
+            cls = []
+            for comp in spec.get("bic_lookup_components", ["bank_code"]):
+                s_, e_ = spec.get("positions", {}).get(comp, [0, 0])
+                cls += per_pos[cc][s_:e_]
+            if len(code) != len(cls) or any(ch not in ok[k] for ch, k in zip(code, cls)):
+                bad.append(("bank", e, "bank code does not fit the bank-identifying field " + "".join(cls)))
+    return bad
+
+
+import re as _re_mod
+SPEC_ITEM_RE = _re_mod.compile(r"(\d+)!([nace])")
+
+
+@prop("C17",
+      rule="obligations: one per country entry and per bank-entry chunk (kernel evaluation of the whole "
+           "regenerated table); dynamic: an independent audit of every country and bank entry (exhaustive), and "
+           "reachability - an IBAN is built around every distinct (country, bank code) key (quick: a sample; "
+           "thorough: all) and .bank/.bic are read back; non-trivial = distinct key",
+      note="reachability is checked dynamically, not proved generically; 'algorithms read only defined fields' is "
+           "read as in DESIGN.md (an undeclared field reads the empty string)")
+def c17(run):
+    from realops import registry_lines
+    S = Streams(run.seed * 1000 + 17)
+    r = S.r
+    for kind, item, why in data_audit(S)[:20]:
+        run.violation("bundled data", [item if kind == "country" else
+                                       {k: item.get(k) for k in ("country_code", "bank_code", "bic")}],
+                      why, "consistent entry", "independent audit of the live tables", kind="config")
+    run.count(len(S.banks) + len(S.table), tag="audited entries")
+    run.exhaustive = True
+    first = {}
+    for e in S.banks:
+        if e["bank_code"]:
+            first.setdefault((e["country_code"], e["bank_code"]), e)
+    keys = sorted(first)
+    if run.tier != "thorough":
+        keys = r.sample(keys, min(len(keys), 700))
+    by_cc = {}
+    for k in keys:
+        by_cc.setdefault(k[0], []).append(k)
+    fill = {"n": "0", "a": "A", "c": "A", "e": " "}
+    ops, meta = [], []
+    for cc, ks in sorted(by_cc.items()):
+        spec = S.table.get(cc)
+        if not spec or "positions" not in spec:
+            for k in ks:
+                run.violation("bundled data", [k], "country without positions", "reachable bank", "reachability",
+                              kind="config")
+            continue
+        ops += registry_lines(S.banks_of(cc))
+        meta += [None] * (len(ops) - len(meta))
+        cls = [k for n, k in S.spec_items(cc) for _ in range(n)]
+        for (_, code) in ks:
+            b = [fill[k] for k in cls]
+            pos = 0
+            for comp in spec.get("bic_lookup_components", ["bank_code"]):
+                s_, e_ = spec["positions"].get(comp, [0, 0])
+                b[s_:e_] = list(code[pos:pos + e_ - s_])
+                pos += e_ - s_
+            b = "".join(b)
+            i = cc + iban_check_digits(cc, b) + b
+            ops.append(["iban.new", hx(i), "F", "F"])
+            meta.append(("valid", cc, code, i))
+            ops.append(["bban.bank", hx(cc), hx(b)])
+            meta.append(("bank", cc, code, i))
+            run.distinct.add((cc, code))
+    reals, _ = run.correspond("reachability", ops)
+    for f, m, a in zip(ops, meta, reals):
+        if m is None:
+            continue
+        kind, cc, code, i = m
+        if kind == "valid":
+            if not a.startswith("ok "):
+                run.violation("IBAN built around a listed bank", [cc, code, i], a, "a valid IBAN",
+                              "reachability of every listed bank", kind="config", op=f)
+        else:
+            e = first[(cc, code)]
+            exp = "ok " + " ".join([hx(e["bank_code"]), "None" if e["bic"] is None else hx(e["bic"]),
+                                    hx(e["name"]), hx(e["short_name"])])
+            if not a.startswith(exp + " | "):
+                run.violation("iban.bank for an IBAN built around a listed bank", [cc, code, i], a, exp,
+                              "listed bank is found again from its IBAN", kind="config", op=f)
